@@ -277,24 +277,21 @@ def _dpseg(text, args,
                 process.stdin.write((utt.strip() + '\n').encode('utf8'))
             process.stdin.close()
 
-        thread = threading.Thread(target=writer)
-        thread.start()
+        # Send stdout and stderr to logger, until EOF is reached. Each
+        # stream is read in its own thread: reading them in turn
+        # blocks on the silent one while the program blocks on the
+        # other, once it has written more than a pipe can hold
+        def reader(stream):
+            for line in iter(stream.readline, b''):
+                log.debug(line.decode('utf8').strip())
 
-        # Send stdout and stderr to logger, break if EOF reached
-        while True:
-            line_out = process.stdout.readline().decode('utf8')
-            line_err = process.stderr.readline().decode('utf8')
-
-            if line_out == "" and line_err == "":
-                break
-
-            if line_out != "":
-                log.debug(line_out.strip())
-
-            if line_err != "":
-                log.debug(line_err.strip())
-
-        thread.join()
+        threads = [threading.Thread(target=writer)] + [
+            threading.Thread(target=reader, args=(stream,))
+            for stream in (process.stdout, process.stderr)]
+        for thread in threads:
+            thread.start()
+        for thread in threads:
+            thread.join()
         process.wait()
         if process.returncode:
             raise RuntimeError(
